@@ -73,17 +73,22 @@ def s_case(draw, quick=True):
     return {"N": N, "kind": draw(st.sampled_from(["gauss-train", "nrz-train", "lowpass-random", "gauss-train"])), "seed": draw(st.integers(0, 2 ** 31 - 1)),
             "sps": draw(st.sampled_from([8, 16, 32])), "R": draw(st.sampled_from([2.5e9, 10e9, 25e9])), "logp": draw(st.floats(-4, np.log10(0.5))),
             "L": draw(st.floats(1, 100)), "alpha": draw(st.one_of(st.just(0.0), st.floats(0, 0.5), st.floats(0.05, 0.5))),
-            "mode": draw(st.sampled_from(["nlse", "nlse", "nlse", "nlse", "spm", "spm", "linear", "any"])),
+            "mode": draw(st.sampled_from(["nlse", "nlse", "nlse", "nlse", "spm", "spm", "linear", "any", "b3only", "b2only"])),
             "b2": draw(st.floats(-25, 25)), "b3": draw(st.one_of(st.just(0.0), st.just(0.0), st.floats(-0.2, 0.2))), "gamma": draw(st.floats(0.05, 5)),
             "phis": sorted({round(10 ** draw(st.floats(lo, -1)), 6) for _ in range(3)} | {0.1 if quick else 0.05}, reverse=True),
             "layout": draw(st.sampled_from(["1pol", "1pol", "2pol-yempty", "2pol-copy", "2pol-indep"])), "lead": draw(st.sampled_from(["none", "none", "zeros", "weak"])),
             "nl_target": draw(st.floats(0.2, 10))}
 
 
+def slot_rate(c):
+    # third-order dispersion only matters for very wide bands: use a 100 GBd grid there (fs up to 3.2 THz)
+    return 100e9 if c.get("mode") == "b3only" else c["R"]
+
+
 def make_field(c):
     rs = np.random.RandomState(c["seed"])
     N, sps = c["N"], c["sps"]
-    fs = c["R"] * sps
+    fs = slot_rate(c) * sps
     nb = max(2, N // sps)
     if c["kind"] == "lowpass-random":
         X = np.zeros(N, dtype=complex)
@@ -143,15 +148,23 @@ def e_case(c):
     reset()
     a, fs, rs = make_field(c)
     N = a.size
-    gv(sps=c["sps"], R=c["R"])
+    gv(sps=c["sps"], R=slot_rate(c))
     ppk = float(np.max(np.abs(a) ** 2))
     L, alpha, b2, b3 = c["L"], c["alpha"], c["b2"], c["b3"]
     gamma = c["gamma"]
     mode = c.get("mode", "any")
+    if mode == "b3only":
+        L = max(L, 50.0)
     if mode == "spm":
         b2 = b3 = 0.0
     elif mode == "linear":
         gamma = 0.0
+    elif mode == "b3only":      # third-order dispersion alone (beta2 exactly 0): needs a wide band to matter
+        b2 = 0.0
+        b3 = 0.2 if b3 >= 0 else -0.2
+        L = max(L, 50.0)
+    elif mode == "b2only":
+        b3 = 0.0
     if gamma * ppk * L > 10 or (gamma > 0 and gamma * ppk * L < 0.05):
         gamma = min(5.0, c["nl_target"] / (ppk * L))          # keep the total nonlinear phase within the quantifier (<= 10 rad) and visible
     phinl = gamma * ppk * L
@@ -230,8 +243,8 @@ def e_case(c):
             ps = sorted(errs, reverse=True)
             for i_, pa in enumerate(ps):
                 for pb in ps[i_ + 1:]:
-                    # (only where phi_max actually governs the step: at least 3 split steps at the coarser setting)
-                    if pb <= pa / 4 and 1e-5 <= errs[pa] <= 0.3 and steps[pa] // 2 >= 3:
+                    # (only where phi_max actually governs the step: the nonlinear phase gamma*P*L_eff spans at least 3 steps of the coarser setting)
+                    if pb <= pa / 4 and 1e-5 <= errs[pa] <= 0.3 and gamma * ppk * (L if anp == 0 else -np.expm1(-anp * L) / anp) >= 3 * pa:
                         cls.append("convergence-pair" if sens > 5 * errs[pa] else "convergence-pair-insensitive")
                         check(errs[pb] <= 0.9 * errs[pa] + 1e-7, "nlse-error-does-not-shrink-with-phi_max",
                               f"phi_max {pa} -> {pb}: rel err {errs[pa]:.3e} -> {errs[pb]:.3e}; gamma*P*L={phinl:.2f} disp={disp_phase:.2f} rad")
